@@ -9,7 +9,7 @@ from pyp0f.database.parse.utils import (
 )
 from pyp0f.database.records import HTTPRecord, MTURecord, Record, TCPRecord
 from pyp0f.database.records_database import RecordsDatabase
-from pyp0f.exceptions import DatabaseError, ParsingError
+from pyp0f.exceptions import DatabaseError, FieldError, ParsingError
 from pyp0f.net.packet import Direction
 from pyp0f.utils.path import PathLike
 
@@ -128,8 +128,10 @@ def _parse_section(line: str) -> Tuple[Type[Record], Optional[Direction]]:
     Parse section entry. Returns the section record type and direction to use.
     """
     section_type, direction = split_parts(line[1:-1], parts=2)
+    record_cls = _parse_section_type(section_type)
 
-    return (
-        _parse_section_type(section_type),
-        _parse_direction(direction) if direction else None,
-    )
+    # MTU sections have no direction, TCP and HTTP sections need one.
+    if (record_cls is MTURecord) == bool(direction):
+        raise FieldError(f"Invalid direction {direction!r} for section {section_type!r}")
+
+    return record_cls, _parse_direction(direction) if direction else None
